@@ -1,13 +1,14 @@
 ------------------------------- MODULE TraceFlow -------------------------------
 (* Events: Node n kind conc thr | Edge a b | Msg m s k | PutB n m | PutE n m ok | BB n m | BE n m | DecB n | TupQ/TupK n a b x y | Cancel | Uncancel |  *)
+(*         Rsv n m ok | Rel n m | Con n m | Get n m | Drained n cnt | Dlv sc v | OwCheck n sc |                                                               *)
 (*         WaitRet live lossless | Tuples n a b cnt | Scenario | Reset ; Stuck/Crash/Terminate unexplainable                                                *)
 EXTENDS Integers, Sequences, FiniteSets, TLC, Json, IOUtils
 TraceLog == ndJsonDeserialize(IOEnv.TRACE)
 Nodes == 1..9
 Msgs == 1..60
-VARIABLES kind, conc, preds, ext, pend, begun, done, run, putdone, before, nextseq, decs, thr, seqno, key, tuples, cancelled, l
+VARIABLES kind, conc, preds, ext, pend, begun, done, run, putdone, before, nextseq, decs, thr, seqno, key, tuples, cancelled, snap, rsv, consumed, recv, l
 A == INSTANCE FlowAbs
-vars == <<kind, conc, preds, ext, pend, begun, done, run, putdone, before, nextseq, decs, thr, seqno, key, tuples, cancelled, l>>
+vars == <<kind, conc, preds, ext, pend, begun, done, run, putdone, before, nextseq, decs, thr, seqno, key, tuples, cancelled, snap, rsv, consumed, recv, l>>
 Ev == TraceLog[l]
 Is(e) == l <= Len(TraceLog) /\ TraceLog[l].e = e /\ l' = l + 1
 TInit == A!FInit /\ l = 1
@@ -21,15 +22,23 @@ TNext == \/ Is("Node") /\ A!DeclNode(Ev.n, Ev.kind, Ev.conc, Ev.thr)
          \/ Is("DecB") /\ A!DecB(Ev.n)
          \/ Is("TupQ") /\ A!TupQ(Ev.n, Ev.a, Ev.b, Ev.x, Ev.y)
          \/ Is("TupK") /\ A!TupK(Ev.n, Ev.a, Ev.b, Ev.x, Ev.y)
+         \/ Is("Rsv") /\ A!Reserve(Ev.n, Ev.m, Ev.ok)
+         \/ Is("Rel") /\ A!Release(Ev.n, Ev.m)
+         \/ Is("Con") /\ A!Consume(Ev.n, Ev.m)
+         \/ Is("Get") /\ A!Get(Ev.n, Ev.m)
+         \/ Is("Drained") /\ A!Drained(Ev.n, Ev.cnt)
+         \/ Is("Dlv") /\ A!Deliver(Ev.sc, Ev.v)
+         \/ Is("OwCheck") /\ A!OwCheck(Ev.n, Ev.sc)
          \/ Is("Cancel") /\ A!Cancel
          \/ Is("Uncancel") /\ A!ResetCancel
          \/ Is("WaitRet") /\ A!WaitRet(Ev.live, Ev.lossless)
          \/ Is("Tuples") /\ A!TuplesOK(Ev.n, Ev.a, Ev.b, Ev.cnt)
-         \/ Is("Scenario") /\ UNCHANGED <<kind, conc, preds, ext, pend, begun, done, run, putdone, before, nextseq, decs, thr, seqno, key, tuples, cancelled>>
+         \/ Is("Scenario") /\ UNCHANGED <<kind, conc, preds, ext, pend, begun, done, run, putdone, before, nextseq, decs, thr, seqno, key, tuples, cancelled, snap, rsv, consumed, recv>>
          \/ Is("Reset") /\ kind' = [n \in Nodes |-> "none"] /\ conc' = [n \in Nodes |-> 0] /\ preds' = [n \in Nodes |-> {}] /\ ext' = [n \in Nodes |-> {}] /\ pend' = [n \in Nodes |-> {}]
                         /\ begun' = [n \in Nodes |-> {}] /\ done' = [n \in Nodes |-> {}] /\ run' = [n \in Nodes |-> {}] /\ putdone' = [n \in Nodes |-> <<>>]
                         /\ before' = [m \in Msgs |-> {}] /\ nextseq' = [n \in Nodes |-> 0] /\ decs' = [n \in Nodes |-> 0] /\ thr' = [n \in Nodes |-> 0]
                         /\ seqno' = [m \in Msgs |-> -1] /\ key' = [m \in Msgs |-> 0] /\ tuples' = [n \in Nodes |-> 0] /\ cancelled' = FALSE
+                        /\ snap' = [n \in Nodes |-> {}] /\ rsv' = [n \in Nodes |-> 0] /\ consumed' = [n \in Nodes |-> {}] /\ recv' = [n \in Nodes |-> <<>>]
 TraceSpec == TInit /\ [][TNext]_vars
 NotAccepted == l <= Len(TraceLog)
 =============================================================================
